@@ -8,10 +8,11 @@ use serde_json::{json, Value};
 
 const RULE: &str = "sequences of 1-6 rule groups (one rule each) x generated words (incl. tones up to 4 digits on adjacent syllables, long segments, multi-node places): rules from the full-grammar generator, from the rules harvested from the test-suite and manual, and from templates biased to what restructures a word (deletion of segments / syllables / `$`, metathesis with `$`, insertion of `$`, `%` and structures, syllable substitution, tone merging through `$ > *`, node alphas, `[-place]`, `[±lab/cor/dor/phr]`); after EVERY group of every successful run the walker checks: >= 1 syllable, no empty syllable, tone has <= 4 digits and no 0 digit, root/laryngeal use only their 3 bits, place is never Some(0), no feature bits under an absent sub-node. Non-trivial = the sequence changed the word's shape (segment count, syllable count or a place value); distinct = distinct (rules, word).";
 
-const TEMPLATES: [&str; 40] = [
+pub const TEMPLATES: [&str; 46] = [
     "$ > *", "$ > * / _C", "$ > * / V_", "V > * / _#", "C > * / #_", "V > *", "C > *", "% > * / _#", "% > * / #_", "%:[-stress] > *",
     "$C > &", "C$ > &", "$V > &", "V$ > & / _C", "CV > &", "%% > &", "* > $ / V_C", "* > $ / C_C", "* > $ / _V", "* > % / V_", 
     "* > ⟨ta⟩ / _#", "* > ⟨a⟩:[+stress] / #_", "C > C$", "V > V$ / _C", "C > ⟨pa⟩", "V > ⟨an⟩:[tone:51]", "% > ⟨ka⟩ / _#", "V > [tone:35]", "% > [tone:1234]", "$ > * / V:[tone:51]_",
+    "$V > *", "$C > * / _V", "$V:[-stress] > * / _$", "V$ > * / #_", "%V > * / #_", "$CV > * / #_",
     "[] > [-place]", "C > [-lab]", "[+round] > [-lab]", "[+labdent] > [-lab]", "C > [-cor]", "[+hi] > [-dor]", "C > [+phr]", "C > [Aplace] / _C:[Aplace]", "[+nasal] > [Alab] / _[Alab]", "V > [-dor, +lab]",
 ];
 
